@@ -8,7 +8,7 @@ MANIFEST = dict(
    note="Trusted: Lean kernel; axioms propext/Classical.choice/Quot.sound only; Go's rune decoding of the tag (the model starts from []rune(tag)); unicode.IsSpace table as transcribed; the harness, the generators in vlib/c06.py and the comparer. The rule matrix is finite: the listed field types, one parameter per rule, pairs of rules, boundary probes only. Format rules (email/url/uuid/regex) are judged on blatant members/non-members. Type graphs: finite acyclic VALUES only (no cyclic pointer structures); probes are single corruptions of one valid value per root, recursion unfolded twice (thorough: three times); the graph world has one scalar field `V int min=3` per struct and edge tags `required` / `max=2` / none. Histories: string fields, rules enum/includes/startswith/endswith/min/max/length/required. The documented meaning is this check's reading of docs/tags.md (required = presence; an untagged field is not validated; a nil slice/map is the absent container).",
    design="DESIGN.md §5 C06")
 
-MODULES = ["Gozod.Proofs.C06", "Gozod.Proofs.C06G", "Gozod.Proofs.C06H"]
+MODULES = ["Gozod.Proofs.C06", "Gozod.Proofs.C06G", "Gozod.Proofs.C06H", "Gozod.Proofs.C06S"]
 THEOREMS = [
     "Gozod.C06.c06_no_panic", "Gozod.C06.c06_legacy_panics", "Gozod.C06.c06_parse_ws", "Gozod.C06.c06_rule_ws",
     "Gozod.C06.c06_parts_ws", "Gozod.C06.accept_pair", "Gozod.C06.accept_comm",
@@ -22,6 +22,8 @@ THEOREMS = [
     # the schema is a function of the struct's own tags (Proofs/C06H.lean)
     "Gozod.C06.c06_history_independent", "Gozod.C06.c06_history_prefix_stable", "Gozod.C06.c06_tag_ws_verdict",
     "Gozod.C06.c06_rules_perm", "Gozod.C06.c06_accept_perm", "Gozod.C06.c06_tag_meaning_partial", "Gozod.C06.c06_tag_meaning_full_false",
+    # the static table of type switches (Proofs/C06S.lean over Gen/TagSwitches.lean)
+    "Gozod.C06.c06_switches_reach_partial", "Gozod.C06.c06_switches_cover", "Gozod.C06.c06_unreached_is_dropped",
 ]
 # witnesses that the known-finding region is exact; they stop checking when the library is repaired
 W_MODULES = ["Gozod.Proofs.C06W"]
@@ -453,6 +455,144 @@ def lean_table(blocks, obs):
     L.append("end Gozod.Gen")
     return "\n".join(L) + "\n"
 
+# ------------------------------------------------------------------------------------------------
+# Gen/TagSwitches.lean — the STATIC table: go/ast extraction (harness/cmd/c06sw, source only) of the case
+# lists of every type switch / type assertion a rule name can reach in types/struct.go, and of the schema
+# constructor chosen per reflect.Kind x pointer-ness; rendered with names interned as indices.
+
+SW_RULES = ["min", "max", "length", "email", "url", "uuid", "regex", "positive", "negative", "nonnegative",
+            "nonpositive", "nonempty", "gt", "gte", "lt", "lte"]
+GO_KIND = {"string": "String", "int": "Int", "int8": "Int8", "int16": "Int16", "int32": "Int32", "int64": "Int64",
+           "uint": "Uint", "uint8": "Uint8", "uint16": "Uint16", "uint32": "Uint32", "uint64": "Uint64",
+           "float32": "Float32", "float64": "Float64", "bool": "Bool"}
+GEN_LEAN_SW = os.path.join(C.LEAN, "Gozod", "Gen", "TagSwitches.lean")
+
+def switch_facts(repo):
+    """Run the go/ast extractor on repo/types. Returns (facts, error)."""
+    with C.Lock("go"):
+        binp = os.path.join(C.BUILD, "bin", "c06sw")
+        os.makedirs(os.path.dirname(binp), exist_ok=True)
+        rc, out = C.run(["go", "build", "-o", binp, "./cmd/c06sw"], cwd=C.HARNESS, env=C.goenv(), timeout=900)
+    if rc != 0: return None, "c06sw does not build: " + out[-800:]
+    rc, out = C.run([binp, "-repo", repo, "-rules", ",".join(SW_RULES)])
+    if rc != 0: return None, "c06sw failed (the tag-application functions of types/struct.go were not found): " + out[-800:]
+    try:
+        return json.loads(out), ""
+    except ValueError as e:
+        return None, "c06sw output is not JSON: %r" % (e,)
+
+def _norm_ty(t):
+    return t.replace("interface{}", "any").replace("interface {}", "any").replace(" ", "")
+
+def _split_ty(t):
+    """'*ZodSlice[int64,[]int64]' -> ('ZodSlice', 'int64,[]int64'); an identifier -> (name, None)"""
+    t = _norm_ty(t)
+    m = re.match(r"^\*?([A-Za-z_][A-Za-z_0-9]*)\[(.*)\]$", t)
+    if m: return m.group(1), m.group(2)
+    return t.lstrip("*"), None
+
+def _ctor_result(facts, expr):
+    """result type text of a constructor call expression `Name[targs](…)` / `Name(…)`; None when unknown"""
+    m = re.match(r"^([A-Za-z_][A-Za-z_0-9]*)(?:\[([^\]]*)\])?\(", expr)
+    if not m: return None
+    c = facts["ctors"].get(m.group(1))
+    if c is None: return None
+    res = c["result"]
+    targs = [a.strip() for a in m.group(2).split(",")] if m.group(2) else []
+    for tp, ta in zip(c.get("tparams") or [], targs):
+        res = re.sub(r"\b%s\b" % re.escape(tp), ta, res)
+    return res
+
+def schema_type_of(facts, gotype):
+    """the schema type createSchemaFromTypeWithInfo starts with for a field of Go type `gotype` (None: not derived)"""
+    ptr = gotype.startswith("*")
+    base = gotype[1:] if ptr else gotype
+    def kind_expr(kind):
+        rows = [k for k in facts["kinds"] if k["kind"] == kind and k["ptr"] == ptr and not k["coerce"]]
+        return rows[0]["expr"] if rows else None
+    if base in GO_KIND:
+        e = kind_expr(GO_KIND[base])
+        return _ctor_result(facts, e) if e else None
+    if base.startswith("[]"):
+        el = base[2:]
+        if el in ("Inner", "InnerT"):
+            # struct elements: createSchemaFromTypeWithCycleDetection builds Slice[any](schema) itself
+            return _ctor_result(facts, "Slice[any](schema)")
+        e = kind_expr("Slice")
+        if e is None: return None
+        m = re.match(r"^(create\w+)\(", e)
+        if not m: return _ctor_result(facts, e)
+        ek = GO_KIND.get(el) or ("Slice" if el.startswith("[]") else "Pointer" if el.startswith("*") else None)
+        rows = [r for r in facts["elems"] if r["func"] == m.group(1) and r["kind"] == ek] or \
+               [r for r in facts["elems"] if r["func"] == m.group(1) and r["kind"] == "default"]
+        return _ctor_result(facts, rows[0]["expr"]) if rows else None
+    return None
+
+def lean_switches(facts, blocks):
+    names, idx = [], {}
+    def intern(n):
+        if n not in idx:
+            idx[n] = len(names); names.append(n)
+        return idx[n]
+    sty, missing = [], []
+    for b in blocks:
+        if b["cls"] not in ("str", "sint", "uint", "float", "slice"): continue
+        t = schema_type_of(facts, b["gotype"])
+        if t is None:
+            missing.append(b["gotype"]); continue
+        h, a = _split_ty(t)
+        base = b["fty"][4:] if b["ptr"] else b["fty"]
+        sty.append("    (⟨%s, .%s⟩, %d, %d)" % ("true" if b["ptr"] else "false", base, intern(h), intern(a or "")))
+    if missing: return None, "no schema constructor derived for field types %s" % ", ".join(missing)
+    ifaces = []
+    for i, heads in sorted(facts["ifaces"].items()):
+        hs = list(heads) + sorted(w for w, e in facts["embeds"].items() if e in heads)
+        ifaces.append("    (%d, [%s])" % (intern(i), ", ".join(str(intern(h)) for h in hs)))
+    rows = []
+    for r in SW_RULES:
+        for tl in facts["rules"].get(r, []):
+            cs = []
+            for t in tl["types"]:
+                h, a = _split_ty(t)
+                if a is None and h not in facts["ifaces"]:
+                    continue       # a case that is neither an instantiation nor a dispatch interface (e.g. `nil`)
+                cs.append("⟨%d, %s⟩" % (intern(h), "none" if a is None else "some %d" % intern(a)))
+            rows.append("    ⟨.%s, %d, %d, [%s]⟩" % (r, intern(tl["func"]), tl["line"], ", ".join(cs)))
+    L = ["-- REGENERATED on every `./check C06` run by vlib/c06.py from harness/cmd/c06sw (go/ast over types/*.go). DO NOT EDIT.",
+         "import Gozod.Model.TagSwitch", "namespace Gozod.Gen", "open Gozod.Tags Gozod.Tags.Sw", "",
+         "def tagFacts : Facts where",
+         "  names := [%s]" % ", ".join(json.dumps(n) for n in names),
+         "  schemaTy := [", ",\n".join(sty), "  ]",
+         "  rows := [", ",\n".join(rows), "  ]",
+         "  ifaces := [", ",\n".join(ifaces), "  ]",
+         "", "end Gozod.Gen"]
+    return "\n".join(L) + "\n", ""
+
+def static_unreached(facts, blocks):
+    """Python mirror of Sw.reaches, for the evidence and for aiming: the documented (rule, field type) cells no case reaches,
+    with the switches the rule name leads to."""
+    out = []
+    impl = {i: set(hs) | {w for w, e in facts["embeds"].items() if e in hs} for i, hs in facts["ifaces"].items()}
+    for b in blocks:
+        if b["cls"] not in ("str", "sint", "uint", "float", "slice"): continue
+        t = schema_type_of(facts, b["gotype"])
+        if t is None: continue
+        h, a = _split_ty(t)
+        seen = set()
+        for r in b["singles"]:
+            name = r.split("=")[0]
+            if name == "required" or name in seen or name not in SW_RULES: continue
+            seen.add(name)
+            hit = False
+            for tl in facts["rules"].get(name, []):
+                for c in tl["types"]:
+                    ch, ca = _split_ty(c)
+                    if (ca is not None and ch == h and ca == a) or (ca is None and h in impl.get(ch, ())): hit = True
+            if not hit:
+                where = ", ".join(sorted({"%s:%d" % (tl["func"], tl["line"]) for tl in facts["rules"].get(name, [])})) or "no switch handles this rule name"
+                out.append("%s on %s: no case for *%s[%s] (%s)" % (name, b["gotype"], h, a, where))
+    return out
+
 GEN_GO = os.path.join(C.HARNESS, "cmd", "c06", "zz_matrix.go")
 GEN_LEAN = os.path.join(C.LEAN, "Gozod", "Gen", "TagTable.lean")
 
@@ -532,6 +672,8 @@ def make_key(ops, impl, model):
         if t[1] == "hist":
             # family, rule names of the tag; `first` = the struct is the first one built in its process
             return "hist:%s:%s:%s" % (t[2], "first" if t[4] == "0" else "later", {"1": "accepted", "0": "rejected"}.get(im, re.split(r"[:_]", im)[0]))
+        if t[1] == "stype":
+            return "static:schema-type:%s" % t[2]
         if t[1] == "tag":
             if im.startswith("panic"): return "tagparser:panic"
             if im.endswith("ws=0"): return "tagparser:whitespace"
@@ -545,6 +687,8 @@ def describe(op):
         return "type M struct{ F <type> `gozod:\"<tag>\"` }; gozod.FromStruct[M]().Parse(M{F: <probe>}) — type/tag in the op comment; probe n:<2*value> s:<kind>:<bytes> e:<elements> nil; 1 = no issue on F"
     if t[1] == "hist":
         return "fresh process; FromStruct of the struct types of family %s (harness/cmd/c06/zz_twins.go) in the order %s; then the Parse in the op comment on struct #%s of that order" % (t[2], t[3], t[4])
+    if t[1] == "stype":
+        return "the concrete schema type of a field of this Go type, by reflection on FromStruct's Shape (expression in the op comment) vs. the go/ast derivation in Gen/TagSwitches.lean"
     if t[1] in ("graph", "gbuild", "genv"):
         return "the Go expression in the op comment (struct types: harness/cmd/c06/zz_graph.go, root %s); value tokens: nil | node <V> <n> kid*n | list <n> elem*n" % t[2]
     return "tagparser.New().ParseTagString(<tag in the op comment>)"
@@ -584,6 +728,21 @@ def _run(res):
         C.tie_broken(res, "translator C06/TagGraph", "cannot render Gen/TagGraph.lean from the harness output: %r" % (e,))
         return res.finish()
     if write_if_changed(GEN_LEAN_GRAPH, gtxt): res.notes.append("Gen/TagGraph.lean changed and was rewritten")
+    # the static table: case lists of the type switches of types/struct.go (go/ast), regenerated
+    facts, err = switch_facts(C.REPO)
+    if facts is None:
+        C.tie_broken(res, "translator C06/TagSwitches", err)
+        return res.finish()
+    stxt, err = lean_switches(facts, blocks)
+    if stxt is None:
+        C.tie_broken(res, "translator C06/TagSwitches", err)
+        return res.finish()
+    if write_if_changed(GEN_LEAN_SW, stxt): res.notes.append("Gen/TagSwitches.lean changed and was rewritten")
+    unreached = static_unreached(facts, blocks)
+    res.coverage["static_switch_table"] = dict(
+        rows=sum(len(v) for v in facts["rules"].values()), rule_names=len(SW_RULES),
+        constructor_branches=len(facts["kinds"]) + len(facts["elems"]), dispatch_interfaces=sorted(facts["ifaces"]),
+        unreached_cells=len(unreached), unreached_sample=unreached[:12])
     ok, detail = C.prove(res, MODULES, THEOREMS)
     # the driver (spec oracle + parser model) is needed even when a proof over the table broke
     if not ok:
@@ -606,6 +765,10 @@ def _run(res):
             model[i] = m + "\t" + (impl[i] if good else m)
         elif o.startswith("c06 tablesum") or o.startswith("c06 genv"):
             model[i] = model[i].split("\t")[0] + "\t" + impl[i]      # a difference is drift of the regenerated table
+        elif o.startswith("c06 stype"):
+            m = model[i].split("\t")[0]
+            # field types no rule switch applies to (bool, maps, nested structs) are not in the static table
+            model[i] = (impl[i] if m == "-" else m) + "\t" + impl[i]  # a difference: the static derivation of the schema type is wrong
     C.decide(res, "C06", (ops, impl, model, stats), make_key(ops, impl, model), "C06/matrix+tagparser", describe=describe)
     if not ok and not res.violations:
         C.tie_broken(res, "proof Gozod.Proofs.C06", detail)
